@@ -66,12 +66,13 @@ def check(run, M, tier):
               "InverseWavelet takes ishape %s and slices %s" % (_show(iw.ishape), _show(iw.attrs.get("coeff_slices"))), stmt="W2:InverseWavelet")
     f = M.func("sigpy.linop.InverseWavelet._apply")
     cs = [c for c in calls_in(f.node) if isinstance(c.func, ast.Attribute) and c.func.attr == "iwt"]
-    ok = len(cs) == 1 and [unparse(a) for a in cs[0].args] == ["input", "self.oshape", "self.coeff_slices"] and \
-        sorted((k.arg, unparse(k.value)) for k in cs[0].keywords) == [("axes", "self.axes"), ("level", "self.level"), ("wave_name", "self.wave_name")]
+    from ..common import bound_args
+    ba = bound_args(M, f, cs[0]) if len(cs) == 1 else None
+    ok = ba == {"input": "input", "oshape": "self.oshape", "coeff_slices": "self.coeff_slices", "wave_name": "self.wave_name", "axes": "self.axes", "level": "self.level"}
     run.check(ok, "W2", "InverseWavelet._apply", f.loc(), "iwt(input, self.oshape, self.coeff_slices, wave_name, axes, level)",
               "InverseWavelet._apply calls `%s`" % (unparse(cs[0]) if cs else "nothing"), stmt="W2:iwt-call")
     f = M.func("sigpy.linop.Wavelet._apply")
     cs = [c for c in calls_in(f.node) if isinstance(c.func, ast.Attribute) and c.func.attr == "fwt"]
-    ok = len(cs) == 1 and [unparse(a) for a in cs[0].args] == ["input"] and \
-        sorted((k.arg, unparse(k.value)) for k in cs[0].keywords) == [("axes", "self.axes"), ("level", "self.level"), ("wave_name", "self.wave_name")]
+    ba = bound_args(M, f, cs[0]) if len(cs) == 1 else None
+    ok = ba == {"input": "input", "wave_name": "self.wave_name", "axes": "self.axes", "level": "self.level"}
     run.check(ok, "W2", "Wavelet._apply", f.loc(), "fwt(input, wave_name, axes, level) with the stored parameters", "Wavelet._apply calls `%s`" % (unparse(cs[0]) if cs else "nothing"), stmt="W2:fwt-call")
